@@ -378,6 +378,9 @@ def run(ck):
     reads = sorted(n for n in tu24.funcs if _re.match(r"vm_MEM_LOOKUP_\d+$", n))
     writes = sorted(n for n in tu24.funcs if _re.match(r"vm_MEM_WRITE_\d+$", n))
     _c24.page_pointer_rules(ck, tu24, "R5", _c24._closure(tu24, reads), _c24._closure(tu24, writes), tu24.macro_int("PAGE_READ"), tu24.macro_int("PAGE_WRITE"))
+    ck.rule("R6", "a typed access through the page pointer lies inside the page, so an access reaching past a mapped page faults instead of being performed (shared with C24-R7)", floor=2)
+    from rules.c24 import typed_access_bound_rules
+    typed_access_bound_rules(ck, tu, "R6")
 
 
 def _is_mem_test(e, var):
